@@ -62,6 +62,34 @@ structure SState where
 
 def terminalMsgStates : List String := ["completed", "submitted", "backed", "cancelled", "aborted", "skipped", "error", "removed"]
 
+/-- the message is a terminal one -/
+def SMsg.isTerm (m : SMsg) : Bool := terminalMsgStates.contains m.state
+
+/-- the record of a task after the message has been counted -/
+def countMsg (t : STask) (m : SMsg) : STask :=
+  if m.isTerm then { t with terminal := t.terminal + 1 } else { t with created := t.created + 1 }
+
+/-- the message names a fresh id and describes the task `t` -/
+def genDescribes (st : SState) (t : STask) (m : SMsg) : Option String :=
+  if st.mids.contains m.mid then some "duplicate-message-id"
+  else if t.kind == "branch" then some "message-from-branch"
+  -- the message describes its task
+  else if m.pid != st.pid || m.nid != t.nid || m.type != t.kind || m.uses != t.uses then some "fields-do-not-match-task"
+  else if m.state != (msgStateOf t.state).toStr then some "state-does-not-match-task"
+  else none
+
+/-- the message comes at most once and in order (`t` is the record before the message is counted) -/
+def genOrdered (st : SState) (t : STask) (m : SMsg) : Option String :=
+  if m.isTerm then (if t.terminal ≥ 1 then some "second-terminal-message" else none)
+  else if t.created ≥ 1 then some "second-created-message"
+  else if t.terminal > 0 then some "created-after-terminal"
+  else if isMsgAct t then some "created-message-of-msg-act"
+  else
+    -- a parent that reports has reported its creation first
+    match sParent st.tasks t with
+    | some p => if reports p && !isMsgAct p && p.created == 0 then some "child-created-before-parent" else none
+    | none => none
+
 def streamStep (st : SState) (i : Nat) : SEv → SState × Option (Nat × String × Nat)
   | .new t => ({ st with tasks := st.tasks ++ [t] }, none)
   | .tr tid s =>
@@ -72,25 +100,11 @@ def streamStep (st : SState) (i : Nat) : SEv → SState × Option (Nat × String
     match st.tasks.find? (·.tid == m.tid) with
     | none => (st, some (i, "message-for-unknown-task", m.tid))
     | some t =>
-      if st.mids.contains m.mid then (st, some (i, "duplicate-message-id", m.tid))
-      else if t.kind == "branch" then (st, some (i, "message-from-branch", m.tid))
-      -- the message describes its task
-      else if m.pid != st.pid || m.nid != t.nid || m.type != t.kind || m.uses != t.uses then (st, some (i, "fields-do-not-match-task", m.tid))
-      else if m.state != (msgStateOf t.state).toStr then (st, some (i, "state-does-not-match-task", m.tid))
-      else
-        let isTerm := terminalMsgStates.contains m.state
-        let t' := if isTerm then { t with terminal := t.terminal + 1 } else { t with created := t.created + 1 }
-        let st' := { st with mids := m.mid :: st.mids, tasks := st.tasks.map fun x => if x.tid == t.tid then t' else x }
-        if isTerm && t'.terminal > 1 then (st', some (i, "second-terminal-message", m.tid))
-        else if !isTerm && t'.created > 1 then (st', some (i, "second-created-message", m.tid))
-        else if !isTerm && t.terminal > 0 then (st', some (i, "created-after-terminal", m.tid))
-        else if !isTerm && isMsgAct t then (st', some (i, "created-message-of-msg-act", m.tid))
-        else if !isTerm then
-          -- a parent that reports has reported its creation first
-          match sParent st.tasks t with
-          | some p => if reports p && !isMsgAct p && p.created == 0 then (st', some (i, "child-created-before-parent", m.tid)) else (st', none)
-          | none => (st', none)
-        else (st', none)
+      match genDescribes st t m with
+      | some c => (st, some (i, c, m.tid))
+      | none =>
+        ({ st with mids := m.mid :: st.mids, tasks := st.tasks.map fun x => if x.tid == t.tid then countMsg t m else x },
+         (genOrdered st t m).map fun c => (i, c, m.tid))
   | .done =>
     -- completeness: every reporting task that started has its created message, every one that ended its terminal message
     match st.tasks.find? fun t => reports t && !isMsgAct t && t.everCreated && t.created == 0 with
